@@ -206,7 +206,7 @@ def gen_step(w, rng):
         path = rng.choice(existing)
         fm = w.files[path]
         names = known_vars(fm)
-        how = rng.choice(["read_nc", "open_read", "var", "names", "handle_var"])
+        how = rng.choice(["read_nc", "open_read", "var", "names", "handle_var", "nc_handle"])
         st = {"op": "read", "path": path, "how": how}
         if how in ("var", "handle_var"):
             if not names:
@@ -702,6 +702,18 @@ def x_read(w, s):
         elif how == "open_read":
             with w.da.open_nc(path) as h:
                 ds = h.read()
+        elif how == "nc_handle":
+            h = w.da.open_nc(path)
+            try:
+                ds = w.da.read_nc(h.nc)            # an open netCDF handle instead of a file name ...
+                again = h.read()                   # ... which stays the caller's: still open afterwards
+                if check:
+                    compare_dataset(w, again, fm, "rt_equal", "C19", "the handle given to read_nc, used again")
+            finally:
+                try:
+                    h.close()
+                except Exception:
+                    pass
         elif how == "var":
             if s["name"] not in fm.vars or fm.vars[s["name"]]["unknown"]:
                 raise Skip("var")
@@ -739,7 +751,7 @@ def x_read(w, s):
                 got2 = w.da.DimArray(got2)
             compare_array(w, got2, fm, s["name"], "rt_equal", "C19", what + "[()]")
     else:
-        compare_dataset(w, ds, fm, "rt_equal", "C19", what, names=None if how in ("read_nc", "open_read") else names)
+        compare_dataset(w, ds, fm, "rt_equal", "C19", what, names=None if how in ("read_nc", "open_read", "nc_handle") else names)
     w.count("c19:read_" + how)
     return "ok"
 
